@@ -22,6 +22,9 @@ Vals == << "null", Q(""), Q("a"), Q("a*"), Q("?"), Q("/r/"), Q("/"), Q("*"), "5"
            "{" \o Q("left") \o ":" \o Q("a") \o "," \o Q("operator") \o ":" \o Q("LITERAL") \o "}",
            "{" \o Q("left") \o ":[" \o Q("a") \o "," \o Q("b") \o "]," \o Q("operator") \o ":" \o Q("LIST") \o "}",
            "{" \o Q("left") \o ":5," \o Q("operator") \o ":" \o Q("NOT") \o "}",
+           "[{" \o Q("left") \o ":" \o Q("a") \o "," \o Q("operator") \o ":" \o Q("RANGE") \o "}]",
+           "[{" \o Q("left") \o ":" \o Q("a") \o "," \o Q("operator") \o ":" \o Q("LIKE") \o "," \o Q("right") \o ":5}," \o Q("b") \o "]",
+           "[" \o Q("a*") \o "," \o Q("/r/") \o ",{" \o Q("left") \o ":1," \o Q("operator") \o ":" \o Q("IN") \o "," \o Q("right") \o ":2}]",
            Q("x\\\"min\\\":\\\"max\\\":") >>
 Ops == << "AND", "OR", "EQUALS", "LIKE", "NOT", "RANGE", "MUST", "MUST_NOT", "BOOST", "FUZZY", "LITERAL", "WILD", "REGEXP",
           "GREATER", "LESS", "GREATER_EQ", "LESS_EQ", "IN", "LIST", "BOGUS", "", "and" >>
